@@ -488,7 +488,9 @@ pub fn c08(ctx: &mut Ctx) -> R {
         // an HTTP/1.0 response cannot be chunked: the Content-Length governs
         format!("HTTP/1.0 {} OK\r\n{}{}Transfer-Encoding: chunked\r\nContent-Length: {}\r\n\r\n", status, empty, loc, n)
     } else {
-        format!("HTTP/1.1 {} OK\r\n{}{}Content-Length: {}{}\r\n\r\n", status, empty, loc, if ctx.chance(1, 8) { "0000000000000000000000" } else { "" }, n)
+        // a transfer coding list without "chunked" in it does not change the framing
+        let te = *ctx.pick(&["", "", "", "", "Transfer-Encoding: gzip,\r\n", "Transfer-Encoding: , gzip\r\n", "Transfer-Encoding: chunke\r\n", "Transfer-Encoding: identity\r\n"]);
+        format!("HTTP/1.1 {} OK\r\n{}{}{}Content-Length: {}{}\r\n\r\n", status, empty, loc, te, if ctx.chance(1, 8) { "0000000000000000000000" } else { "" }, n)
     };
     // the head may arrive in two pieces (not inside a 3xx head: those cuts are owned by C05)
     let cut = if !(300..400).contains(&status) && ctx.chance(1, 3) { Some(ctx.range(0, head.len() - 1)) } else { None };
